@@ -141,7 +141,8 @@ class Fn:
             op = " && " if isinstance(e.op, ast.And) else " || "
             return "(" + op.join(parts) + ")", "bool"
         if isinstance(e, ast.Compare):
-            terms = [self.expr(e.left)] + [self.expr(c) for c in e.comparators]
+            ods = self.spec.get("odicts", {})
+            terms = [self.expr(e.left)] + [("<odict>", "odict") if dotted(c) in ods else self.expr(c) for c in e.comparators]
             outs = []
             for i, op in enumerate(e.ops):
                 outs.append(self.compare(op, terms[i], terms[i + 1], e.comparators[i]))
@@ -251,6 +252,18 @@ class Fn:
 
     def facts_of(self, node, positive):
         """Keys known to be present in an args map when `node` is true (positive) / false (not positive)."""
+        if isinstance(node, ast.Compare) and len(node.ops) == 1 and isinstance(node.ops[0], (ast.In, ast.NotIn)) \
+                and dotted(node.comparators[0]) in self.spec.get("odicts", {}):
+            sp = self.spec["odicts"][dotted(node.comparators[0])]
+            try:
+                saved = list(self.notes)
+                k, tk = self.expr(node.left)
+                self.notes = saved
+            except Unsupported:
+                return set()
+            if tk == "str" and isinstance(node.ops[0], ast.In) == positive:
+                return {(self.state[sp][0], k)}
+            return set()
         if isinstance(node, ast.Compare) and len(node.ops) == 1 and isinstance(node.ops[0], (ast.In, ast.NotIn)):
             try:
                 saved = list(self.notes)
@@ -296,6 +309,11 @@ class Fn:
                 r = "match %s with None => true | Some _ => false end" % x
                 return "(%s)" % r if isinstance(op, ast.Is) else "(negb (%s))" % r
             raise Unsupported("is None on %s" % tx)
+        if isinstance(op, (ast.In, ast.NotIn)) and dotted(bnode) in self.spec.get("odicts", {}):
+            sp = self.spec["odicts"][dotted(bnode)]
+            if tx == "str":
+                r = "(inb %s %s)" % (x, self.state[sp][0])
+                return r if isinstance(op, ast.In) else "(negb %s)" % r
         if isinstance(op, (ast.In, ast.NotIn)):
             if tx == "str" and isinstance(bnode, ast.Tuple) and all(isinstance(c, ast.Constant) and isinstance(c.value, str) for c in bnode.elts):
                 r = "(existsb (str_eqb %s) [%s])" % (x, "; ".join(s_lit(c.value) for c in bnode.elts))
@@ -331,6 +349,15 @@ class Fn:
                 raise Unsupported("call %s with argument types %s" % (pat, [t for _, t in args]))
             head = self.subst(head)
             return "(" + " ".join([head] + [a for a, _ in args]) + ")", rty
+        if isinstance(f, ast.Name) and f.id == "getattr" and len(e.args) == 3 and dotted(e.args[0]) == "self" \
+                and isinstance(e.args[1], ast.Constant) and isinstance(e.args[1].value, str):
+            pat2 = "self." + e.args[1].value
+            if pat2 in self.env:
+                self.notes.append("getattr(self, %r, default): the attribute is declared present" % e.args[1].value)
+                return self.env[pat2]
+        if isinstance(f, ast.Name) and f.id == "len" and len(e.args) == 1 and dotted(e.args[0]) in self.spec.get("odicts", {}):
+            sp = self.spec["odicts"][dotted(e.args[0])]
+            return "(Z.of_nat (length %s))" % self.state[sp][0], "Z"
         if isinstance(f, ast.Name) and f.id == "len" and len(e.args) == 1:
             a, ta = self.expr(e.args[0])
             if ta == "str":
@@ -386,9 +413,21 @@ class Fn:
                 raise Unsupported("function may end without returning")
             return value[0]
         st = "(" + ", ".join(self.state[p][0] for p in self.state_order) + ")" if len(self.state_order) > 1 else self.state[self.state_order[0]][0]
+        if self.spec.get("outcomes"):
+            # a procedure on declared state that may raise: (state, how it ended)
+            if value is not None and value[1] != "none":
+                raise Unsupported("a value is returned from a procedure translated with outcomes")
+            return "(%s, ROk)" % st
         if value is None:
             return st
         return "(%s, %s)" % (st, value[0])
+
+    def raised(self, exc):
+        oc = self.spec.get("outcomes", {})
+        if exc not in oc:
+            raise Unsupported("raise %s" % exc)
+        st = "(" + ", ".join(self.state[p][0] for p in self.state_order) + ")" if len(self.state_order) > 1 else self.state[self.state_order[0]][0]
+        return "(%s, %s)" % (st, oc[exc])
 
     def new(self, base):
         self.fresh += 1
@@ -405,6 +444,44 @@ class Fn:
             return self.block(rest)
         if isinstance(st, ast.Expr) and isinstance(st.value, ast.Constant) and isinstance(st.value.value, str):
             return self.block(rest)
+        if isinstance(st, ast.Raise) and st.cause is None and st.exc is not None:
+            name = dotted(st.exc.func) if isinstance(st.exc, ast.Call) else dotted(st.exc)
+            return self.raised(name)
+        od = self.spec.get("odicts", {})          # attribute path of an OrderedDict -> state pattern holding its items
+        if isinstance(st, ast.Delete) and len(st.targets) == 1 and isinstance(st.targets[0], ast.Subscript) \
+                and dotted(st.targets[0].value) in od:
+            sp = od[dotted(st.targets[0].value)]
+            k, tk = self.expr(st.targets[0].slice)
+            if tk != "str":
+                raise Unsupported("dict key of type %s" % tk)
+            cur = self.state[sp][0]
+            if (cur, k) in self.facts:
+                self.facts.discard((cur, k))
+                return self.bind(sp, "(aremove %s %s)" % (k, cur), self.state[sp][1], rest)
+            # `del d[k]` raises KeyError when k is absent
+            absent = self.raised("KeyError")
+            n = self.new(self.spec["state_names"][sp])
+            self.state[sp] = (n, self.state[sp][1])
+            return "(if (inb %s %s) then (let %s := (aremove %s %s) in %s) else %s)" % (k, cur, n, k, cur, self.block(rest), absent)
+        if isinstance(st, ast.Assign) and len(st.targets) == 1 and isinstance(st.targets[0], ast.Subscript) \
+                and dotted(st.targets[0].value) in od:
+            sp = od[dotted(st.targets[0].value)]
+            k, tk = self.expr(st.targets[0].slice)
+            v, tv = self.expr(st.value)
+            if tk != "str" or tv != self.spec["odict_value"]:
+                raise Unsupported("dict store of %s -> %s" % (tk, tv))
+            return self.bind(sp, "(od_set %s %s %s)" % (self.state[sp][0], k, v), self.state[sp][1], rest)
+        if isinstance(st, ast.Expr) and isinstance(st.value, ast.Call) and isinstance(st.value.func, ast.Attribute) \
+                and st.value.func.attr == "popitem" and dotted(st.value.func.value) in od and not st.value.args \
+                and len(st.value.keywords) == 1 and st.value.keywords[0].arg == "last" \
+                and isinstance(st.value.keywords[0].value, ast.Constant) and st.value.keywords[0].value.value is False:
+            sp = od[dotted(st.value.func.value)]
+            # popitem(last=False) drops the oldest entry; on an EMPTY dict it raises KeyError
+            cur = self.state[sp][0]
+            empty = self.raised("KeyError")
+            n = self.new(self.spec["state_names"][sp])
+            self.state[sp] = (n, self.state[sp][1])
+            return "(match %s with [] => %s | _ :: %s => %s end)" % (cur, empty, n, self.block(rest))
         if isinstance(st, ast.Return):
             if st.value is None:
                 return self.result(None)
@@ -556,7 +633,7 @@ class Fn:
                 return "(let %s := %s in %s)" % (lhs, call, self.block(rest))
             raise Unsupported("statement call %s" % pat)
         if isinstance(st, ast.With) and len(st.items) == 1 and dotted(st.items[0].context_expr) in self.locks and st.items[0].optional_vars is None:
-            self.notes.append("`with %s:` - the body is one atomic step (the lock); interleavings are modelled in Limiter.v" % dotted(st.items[0].context_expr))
+            self.notes.append("`with %s:` - the body is one atomic step (the lock); interleavings are not part of this translation" % dotted(st.items[0].context_expr))
             return self.block(list(st.body) + list(rest))
         raise Unsupported("statement %s" % type(st).__name__)
 
@@ -691,6 +768,24 @@ SPECS = [
                 "build_metric_action": ("gen_build_metric_action", ["str", "args", "metrics"], "option gaction"),
                 "build_span_action": ("gen_build_span_action", ["str", "args"], "option gaction"),
                 "Trigger": ("mk_trigger", ["loc", "list gaction"], "gtrigger")}),
+    # ---- the bounded attribute store (C18)
+    dict(group="Store", name="gen_setitem", path="api/attributes/__init__.py", cls="BoundedAttributes", func="__setitem__",
+         params="(cap vlimit : option Z) (immutable : bool) (items : list (str * cval)) (dropped : Z) (key : str) (value : val)",
+         ret="(list (str * cval) * Z) * outcome", args=["self", "key", "value"], falls_off=True, locks=["self._lock"],
+         outcomes={"TypeError": "RTypeError", "KeyError": "RKeyError"},
+         env={"key": ("key", "str"), "value": ("value", "val"), "self._immutable": ("immutable", "bool"),
+              "self.max_length": ("cap", "option Z"), "self.max_value_len": ("vlimit", "option Z")},
+         state={"self._dict": ("items", "list (str * cval)"), "self.dropped": ("dropped", "Z")},
+         state_names={"self._dict": "items", "self.dropped": "dropped"},
+         odicts={"self._dict": "self._dict"}, odict_value="cval",
+         calls={"_clean_attribute": ("clean_attribute", ["str", "val", "option Z"], "option cval")}),
+    dict(group="Store", name="gen_delitem", path="api/attributes/__init__.py", cls="BoundedAttributes", func="__delitem__",
+         params="(immutable : bool) (items : list (str * cval)) (key : str)",
+         ret="list (str * cval) * outcome", args=["self", "key"], falls_off=True, locks=["self._lock"],
+         outcomes={"TypeError": "RTypeError", "KeyError": "RKeyError"},
+         env={"key": ("key", "str"), "self._immutable": ("immutable", "bool")},
+         state={"self._dict": ("items", "list (str * cval)")}, state_names={"self._dict": "items"},
+         odicts={"self._dict": "self._dict"}, odict_value="cval"),
     # ---- application frames and short paths (C19, C02)
     dict(group="Frames", name="gen_is_app_frame", path="config/config_service.py", cls="ConfigService", func="is_app_frame",
          params="(excl incl : list str) (exec_prefix root filename : str)", ret="bool * option str", value_type="(bool * option str)",
@@ -724,6 +819,7 @@ GROUPS = {           # generated file -> (imports, which properties' theorems ar
     "Gate": ("From Deep Require Import Base Config Limiter Cond PureSupport.\nFrom DeepGen Require Import PTruth.", ["C10"]),
     "Table": ("From Deep Require Import Base Match TriggerTable PureSupport.", ["C11"]),
     "Frames": ("From Deep Require Import Base PureSupport.", ["C19", "C02"]),
+    "Store": ("From Deep Require Import Base Attrs PureSupport.", ["C18"]),
 }
 HEADER = '''(* GENERATED by harness/translate/pure.py from /repo/src/deep - do not edit.
    Each definition is the statement-by-statement translation of one pure function of the agent. *)
